@@ -48,6 +48,8 @@ def judge_count(g, root_label: str, needle: str, k: int, m: MNode) -> Optional[s
         return f"count completion has {got} {needle} nodes, requested {k}"
     r = og.reach(g)
     for p, nd in iter_nodes(m):
-        if nd.children is None and (nd.label == needle or needle in r.get(nd.label, ())):
+        # an open leaf labelled with the needle itself is one (counted) occurrence; it is
+        # a problem only if expanding a leaf can produce *further* needles
+        if nd.children is None and needle in r.get(nd.label, ()):
             return f"open leaf {nd.label} at {p} can still produce {needle} (requested exactly {k})"
     return None
